@@ -9,6 +9,7 @@ import (
 	"context"
 	"fmt"
 	"net"
+	"net/http"
 	"strings"
 	"sync"
 	"testing"
@@ -57,6 +58,8 @@ type Scenario struct {
 	// Yields: yield sites of the client's shutdown / writer paths at which the scheduler may hold
 	// the goroutine (simulated scheduling delay), so that server bytes can arrive in between.
 	Yields map[string]core.YieldSpec `json:"yields,omitempty"`
+	// Tunnel: the client runs RTSP over HTTP ("http"); the scripted server speaks the tunnel.
+	Tunnel string `json:"tunnel,omitempty"`
 }
 
 var clientSites = []string{"c.doClose.pre", "c.doClose.teardown", "c.doClose.reader", "c.doClose.medias", "c.run.close",
@@ -66,7 +69,7 @@ var clientSites = []string{"c.doClose.pre", "c.doClose.teardown", "c.doClose.rea
 const maxHold = 50 * time.Millisecond
 
 var kinds = []string{"normal", "normal", "normal", "mutate", "mutate", "targeted", "targeted", "targeted", "drop", "dup", "delay", "frames", "request",
-	"close-before", "close-after", "rst", "silent", "flood", "auth401", "status", "cseq", "redirect"}
+	"close-before", "close-after", "rst", "silent", "flood", "auth401", "deaf-after", "status", "cseq", "redirect"}
 
 func gen(seed uint64, tier string) Scenario {
 	r := core.NewRand(seed, "c12")
@@ -100,6 +103,28 @@ func gen(seed uint64, tier string) Scenario {
 		sc.RedirectLoop = true
 		sc.Behaviours = sc.Behaviours[:r.Intn(2)]
 	}
+	// the client through the HTTP tunnel, in part with a bounded window so that a server that stops
+	// reading makes the client's writes block (hash-derived so that no other choice moves)
+	window := 0
+	if x := core.HS(seed, "c12.tunnel", "", 0); x%100 < 15 {
+		sc.Tunnel = "http"
+		sc.Protocol = "tcp"
+		if (x>>8)%2 == 0 {
+			window = []int{2048, 8192}[(x>>16)%2]
+			// ... and in most of these runs a publisher whose server goes deaf right after RECORD
+			if (x>>24)%4 != 0 {
+				sc.Role = "record"
+				sc.BackChan = false
+				sc.Creds = false
+				sc.Behaviours = nil
+				for i := 0; i < 3+sc.Medias; i++ { // OPTIONS, ANNOUNCE, SETUP x medias, RECORD
+					sc.Behaviours = append(sc.Behaviours, Behaviour{Kind: "normal"})
+				}
+				sc.Behaviours[len(sc.Behaviours)-1] = Behaviour{Kind: "deaf-after"}
+				sc.RedirectLoop = false
+			}
+		}
+	}
 	// hash-derived so that no other choice of the scenario moves
 	if core.HS(seed, "c12.yields", "", 0)%100 < 50 {
 		sc.Yields = map[string]core.YieldSpec{}
@@ -122,6 +147,7 @@ func gen(seed uint64, tier string) Scenario {
 	if r.Bool(0.3) {
 		nc.UDPDrop = 0.1
 	}
+	nc.Window = window
 	sc.Net = nc
 	return sc
 }
@@ -158,6 +184,7 @@ type fakeServer struct {
 	// always401: every further request is answered 401 with a fresh challenge
 	always401 bool
 	n401      int
+	tunGet    map[string]net.Conn // GET halves of HTTP tunnels by cookie
 }
 
 func (fs *fakeServer) behaviour() Behaviour {
@@ -206,10 +233,60 @@ func (fs *fakeServer) close() {
 	fs.wg.Wait()
 }
 
+// handle serves one accepted connection: plain RTSP, or one half of an RTSP-over-HTTP tunnel
+// (GET = the channel the server writes to, POST = base64-encoded requests from the client).
 func (fs *fakeServer) handle(nc net.Conn) {
 	defer fs.wg.Done()
+	br := bufio.NewReader(nc)
+	nc.SetReadDeadline(time.Now().Add(5 * time.Minute))
+	if pk, err := br.Peek(4); err == nil && (string(pk) == "GET " || string(pk) == "POST") {
+		hreq, err := http.ReadRequest(br)
+		if err != nil {
+			nc.Close()
+			return
+		}
+		cookie := hreq.Header.Get("X-Sessioncookie")
+		if hreq.Method == "GET" {
+			nc.SetWriteDeadline(time.Now().Add(10 * time.Second))
+			nc.Write([]byte("HTTP/1.1 200 OK\r\nCache-Control: no-cache\r\nConnection: close\r\nContent-Type: application/x-rtsp-tunnelled\r\nPragma: no-cache\r\n\r\n")) //nolint:errcheck
+			fs.mu.Lock()
+			if fs.tunGet == nil {
+				fs.tunGet = map[string]net.Conn{}
+			}
+			fs.tunGet[cookie] = nc
+			fs.mu.Unlock()
+			fs.w.Probe("http_tunnel_get")
+			return // stays open: the POST half's handler writes to it (closed by fs.close)
+		}
+		var get net.Conn
+		for i := 0; i < 100 && get == nil; i++ {
+			fs.mu.Lock()
+			get = fs.tunGet[cookie]
+			fs.mu.Unlock()
+			if get == nil {
+				time.Sleep(10 * time.Millisecond)
+			}
+		}
+		if get == nil {
+			nc.Close()
+			return
+		}
+		fs.w.Probe("http_tunnel_paired")
+		tc := gortsplib.VerifNewServerHTTPTunnel(nc, br, get)
+		defer nc.Close()
+		defer get.Close()
+		raw, _ := nc.(*simnet.Conn)
+		fs.serveRTSP(tc, bufio.NewReader(tc), raw)
+		return
+	}
 	defer nc.Close()
-	c := conn.NewConn(bufio.NewReader(nc), nc)
+	raw, _ := nc.(*simnet.Conn)
+	fs.serveRTSP(nc, br, raw)
+}
+
+// serveRTSP: raw is the simulated socket the client's bytes arrive on (for "stops reading").
+func (fs *fakeServer) serveRTSP(nc net.Conn, br *bufio.Reader, raw *simnet.Conn) {
+	c := conn.NewConn(br, nc)
 	sc := fs.sc
 	w := fs.w
 	sess := "sess" + fmt.Sprint(core.H(sc.Seed, "sid")%100000)
@@ -433,6 +510,11 @@ func (fs *fakeServer) handle(nc net.Conn) {
 			}
 			return
 		case "silent":
+			// says nothing and reads nothing any more, but stays connected
+			if raw != nil && fs.sc.Net.Window > 0 {
+				raw.Stall(10 * time.Minute)
+				w.Probe("server_stopped_reading")
+			}
 			select {
 			case <-fs.stop:
 			case <-time.After(10 * time.Minute):
@@ -457,6 +539,16 @@ func (fs *fakeServer) handle(nc net.Conn) {
 			r := &base.Response{StatusCode: base.StatusUnauthorized, Header: base.Header{"CSeq": req.Header["CSeq"], "WWW-Authenticate": base.HeaderValue{ch}}}
 			if !send(r) {
 				return
+			}
+		case "deaf-after":
+			// answers, then stops reading for good while staying connected: what the client sends
+			// from now on piles up (bounded window)
+			if !send(res) {
+				return
+			}
+			if raw != nil {
+				raw.Stall(10 * time.Minute)
+				w.Probe("server_stopped_reading")
 			}
 		case "flood":
 			// the request is never answered, but the connection is anything but silent: responses
@@ -638,6 +730,10 @@ func run(t *testing.T, sc Scenario) *core.Result {
 		cliNode := w.Net.Node("cli", "10.0.0.20")
 		c := &gortsplib.Client{Scheme: "rtsp", Host: "10.0.0.1:8554", ReadTimeout: ms(sc.ReadMS), WriteTimeout: ms(sc.WriteMS),
 			AnyPortEnable: sc.AnyPort, RequestBackChannels: sc.BackChan, UDPSourcePortRange: [2]uint16{20000, 20031}}
+		if sc.Tunnel == "http" {
+			c.Tunnel = gortsplib.TunnelHTTP
+			w.Probe("client_http_tunnel")
+		}
 		switch sc.Protocol {
 		case "udp":
 			p := gortsplib.ProtocolUDP
@@ -750,7 +846,11 @@ func run(t *testing.T, sc Scenario) *core.Result {
 					for k := 0; k < 20; k++ {
 						kk := k
 						call("WritePacketRTP", func() error {
-							return c.WritePacketRTP(pd.Medias[0], &rtp.Packet{Header: rtp.Header{Version: 2, PayloadType: 96, SequenceNumber: uint16(kk)}, Payload: []byte{1, 2, 3, 4}})
+							pl := []byte{1, 2, 3, 4}
+							if sc.Net.Window > 0 {
+								pl = make([]byte, 600) // fills the window of a server that stopped reading
+							}
+							return c.WritePacketRTP(pd.Medias[0], &rtp.Packet{Header: rtp.Header{Version: 2, PayloadType: 96, SequenceNumber: uint16(kk)}, Payload: pl})
 						})
 						time.Sleep(10 * time.Millisecond)
 					}
